@@ -122,7 +122,19 @@ class SizeConstraint(Constraint):
             raise error
         yield WarningEvent(error=error)
 
-        yield from consume_bytes(self.size_max - self.size_already)
+        # skip the padding: it counts for the enclosing regions, too, and ends where the first of them ends
+        enclosing = [
+            c
+            for c in all_size_constraints
+            if c is not self and not c.is_obsolete and c.size_max is not None
+        ]
+        padding = min(
+            [self.size_max - self.size_already]
+            + [c.size_max - c.size_already for c in enclosing]
+        )
+        for constraint in enclosing:
+            constraint.size_already += padding
+        yield from consume_bytes(padding)
 
     def __repr__(self):
         return f"{type(self).__name__}({self.constraint_path}: {self.size_already}/{self.size_max})"
